@@ -64,12 +64,17 @@ def third_reader():
         if line[:1] not in (" ", "\t"):
             blocks.append((int(t[0]), []))
         else:
-            v = t[1]
-            if v.startswith("[") and "," in v:
-                lo, hi = v[1:-1].split(",")
-                p = (float(lo) + float(hi)) / 2
+            # the cell is read from the rest of the line with the documented notations
+            # value(unc) | [nominal] | [low,high] (blanks inside the brackets allowed)
+            rest = line.strip()[len(t[0]):].lstrip()
+            mr = re.match(r"\[\s*([0-9.]+)\s*,\s*([0-9.]+)\s*\]", rest)
+            mn = re.match(r"\[\s*([0-9.]+)\s*\]", rest)
+            if mr:
+                p = (float(mr.group(1)) + float(mr.group(2))) / 2
+            elif mn:
+                p = float(mn.group(1))
             else:
-                p = lead(v.strip("[]"))
+                p = lead(rest)
             blocks[-1][1].append((int(t[0]), p))
     return imass, weight, blocks
 
@@ -155,6 +160,14 @@ def direct(tname, table):
             elif not (isinstance(rho_el, (int, float)) and rho is not None and rel(rho, rho_el * iso.mass / el.mass)):
                 fail("C06:density:%d-%d" % (z, a), "%r.density is %r, expected element density x mass ratio" % (iso, rho),
                      atom=repr(iso), observed=rho, expected=repr(rho_el))
+        # an isotope's number density and interatomic distance are those of its element
+        for iso in el:
+            for k in ("number_density", "interatomic_distance"):
+                vi, ve = attempt(getattr, iso, k), attempt(getattr, el, k)
+                if isinstance(vi, Exception) or (vi is None) != (ve is None) or (vi is not None and not rel(vi, ve, 1e-14)):
+                    fail("C06:isotope-%s" % k, "%r.%s is %r, the element's is %r (n = rho*N_A/m with the isotope's own density and mass)" % (iso, k, vi, ve),
+                         atom=repr(iso), observed=repr(vi), expected=repr(ve))
+                    break
         if any(zz == z for zz, _ in blocks) and not abs(absum - 100) < 1e-9:
             fail("C06:abundance:Z=%d" % z, "abundances of %s sum to %r, not 100" % (el.symbol, absum),
                  atom=el.symbol, observed=absum, expected=100.0)
